@@ -348,6 +348,8 @@ var regexpPool = []string{
 
 var bigRegexpPool = []string{
 	`.*\[(?P<percent>.+)%.*\].*`, `(.+?)(\[.*?\])?`, `[^a-z0-9-]+`, `(?s).`, `[^\\/?]+`, `\S+`, `\W`, `\D\d`, `[^\x00-\x{10FFFE}]`, `(?s).{0,3}`, `\PL`,
+	// classes that contain the surrogate range but not U+FFFD: a surrogate cannot be written to a string, such a pick has to be rejected
+	`[^\x{FFFD}]`, `[\x{D000}-\x{E000}]`, `[\x{D7FF}-\x{E000}]{1,3}`, `[^\x{FFFD}a-z]x`, `[\x{D7FB}-\x{D802}]+`,
 }
 
 func genRegexp(dt *drv.T, cfg GenCfg) string {
